@@ -110,6 +110,9 @@ LOGNAMES = ["log0", "cfg-ü", "M1_para.ini", "dclab-compress", "dclab-condense",
             "dclab-compress-warnings", "dclab_issue_141", "shapein-acquisition",
             "dclab-condense_abc"]
 RID = "vf-rid-1"
+#: features the writer documents as stored unsigned (writer.FEATURES_UINT32)
+UINT32_FEATS = ["fl1_max", "fl1_npeaks", "fl2_max", "fl2_npeaks", "fl3_max",
+                "fl3_npeaks", "index", "ml_class", "nevents"]
 
 
 # ------------------------------------------------------------------ strategies
@@ -195,8 +198,8 @@ def st_spec(draw):
     n = draw(st.one_of(
         st.sampled_from([1, 2, 3, 9, 10, 11, 19, 20, 21, 31]),
         st.integers(1, 40)))
-    if draw(st.integers(0, 24)) == 0:
-        n = 0      # file without events
+    if draw(st.integers(0, 30)) == 17:
+        n = 0      # file without events (kept rare: the tasks raise, see known findings)
     nsc = draw(st.lists(st.sampled_from(FLOATS + list(INTS)), min_size=1,
                         max_size=6, unique=True))
     # defect-prone features are drawn more often together with their triggers
@@ -553,7 +556,9 @@ def write_basins(h5, spec, d, info):
             kmap += 1
             info["internal_feats"] += sorted(ifeats)
         lines = basin_lines(bd)
-        key = hashlib.md5("\n".join(lines).encode()).hexdigest()
+        # dataset name of the definition: any unique string will do; it must
+        # not depend on the scratch path (determinism of the case)
+        key = hashlib.md5(f"vf-basin-{bi}-{b['seed']}-{kind}".encode()).hexdigest()
         g = h5.require_group("basins")
         enc = b["enc"]
         if enc == "vlen":
@@ -603,7 +608,12 @@ def expected_defective(feat, spec, names, lognames, time_f4):
         if first.startswith("ShapeIn"):
             siv = tuple(int(x) for x in first.split()[1].split("."))
         elif "shapein-acquisition" in lognames:
-            siv = tuple(int(x) for x in first.split("."))
+            try:
+                siv = tuple(int(x) for x in first.split("."))
+            except ValueError:
+                # acquisition log of Shape-In but a first version element that
+                # is no Shape-In version number: not a realistic file
+                return None
         else:
             return True
         return not siv >= (2, 0, 5)
@@ -848,7 +858,9 @@ def run_layout(spec, rec, d):
         return
     rec.check(pout.exists(), f"no-output/{task}", "task returned without output file")
     compare(rec, spec, info, pin, pout, task, opts, cls, pre="", first=True)
-    if spec["second"]:
+    if spec["second"] and cls == "multi-basin":
+        rec.skip("second-application-after-known-multi-basin-defect")
+    elif spec["second"]:
         rec.cls("second-application")
         s1 = sha256(pout)
         pout2 = d / "out2.rtdc"
@@ -912,6 +924,9 @@ def compare(rec, spec, info, pin, pout, task, opts, cls, pre, first):
                         time_f4=(nm == "time" and evi[nm].dtype == np.float32))
                 else:
                     defect = False
+            if defect is None:
+                rec.skip("defect-rule-unspecified-for-version-string")
+                continue
             if defect:
                 rec.cls("defect-marker-hit")
                 if task != "condense":
@@ -956,6 +971,8 @@ def compare(rec, spec, info, pin, pout, task, opts, cls, pre, first):
                 tag = f"{enc}/{br}"
                 if not keep_logs:
                     continue
+                if src.size == 0 and lk in (f"dclab-{task}", f"dclab-{task}-warnings"):
+                    continue   # replaced by the task's own command log
                 if src.size == 0:
                     cmp.ck(lk not in lo or lo[lk].size == 0, f"logs/empty/{tag}",
                            f"empty log {lk} became non-empty")
@@ -1224,6 +1241,14 @@ def run_tdms(spec, rec, d):
     for p, s in shas.items():
         rec.check(p.exists() and sha256(p) == s, "input-modified/tdms2rtdc",
                   f"{p.name} changed while running dclab-tdms2rtdc")
+    # Phase A (own handle): the stored video frames, read once in ascending
+    # order and only inside the video (reading beyond the end of a video
+    # disturbs later reads of the tdms image reader).
+    src_img = {}
+    with dclab.new_dataset(src) as d0:
+        nimg = min(len(d0["image"]), len(d0)) if "image" in d0 else 0
+        for i in range(min(nimg, 64)):
+            src_img[i] = np.array(d0["image"][i])
     with dclab.new_dataset(src) as di, dclab.new_dataset(pout) as do, \
             h5py.File(pout) as ho:
         n = len(di)
@@ -1237,22 +1262,29 @@ def run_tdms(spec, rec, d):
         for f in feats:
             if f == "trace":
                 lens += [len(di["trace"][k]) for k in di["trace"].keys()]
+            elif f == "image":
+                lens.append(nimg)
             else:
                 lens.append(len(di[f]))
         lmin = int(min(lens))
+        truncated = bool(src_img) and nimg < n
+        cls = "truncated-video+final-check" if (truncated and skip) else "general"
+        if truncated:
+            rec.cls("tdms:truncated-video")
         keep = np.ones(n, dtype=bool)
         keep[lmin:] = False
         if skip and n:
             first_empty = False
-            if "image" in di and lmin > 0:
-                first_empty |= bool(np.all(np.asarray(di["image"][0]) == 0))
+            if src_img:
+                first_empty |= bool(np.all(src_img[0] == 0))
             if "contour" in di:
                 first_empty |= bool(np.all(np.asarray(di["contour"][0]) == 0))
             if first_empty:
                 keep[0] = False
                 rec.cls("tdms:first-event-empty")
-            if lmin == n and "image" in di and \
-                    bool(np.all(np.asarray(di["image"][n - 1]) == 0)):
+            if src_img and nimg == n:
+                # complete video: the documented final-frame rule would need the
+                # reader's CorruptFrameWarning; no such fixture exists
                 rec.skip("tdms-final-frame-rule-not-modelled")
                 return
         idx = np.flatnonzero(keep)
@@ -1261,28 +1293,60 @@ def run_tdms(spec, rec, d):
                           f"(source {n}, smallest feature {lmin})")
         if len(do) != len(idx):
             return
+
         for f in feats:
             kind = feat_kind(f)
-            if f == "contour":
-                ok = all(np.array_equal(np.asarray(di["contour"][int(i)]),
-                                        np.asarray(do["contour"][j]))
-                         for j, i in enumerate(idx))
-            elif f == "trace":
-                ok = sorted(di["trace"].keys()) == sorted(do["trace"].keys()) and all(
-                    np.array_equal(np.asarray(di["trace"][k])[idx],
-                                   np.asarray(do["trace"][k][:]))
-                    for k in di["trace"].keys())
-            elif kind in ("image", "mask"):
-                ok = all(np.array_equal(np.asarray(di[f][int(i)]),
-                                        np.asarray(do[f][j]))
-                         for j, i in enumerate(idx))
-            else:
-                a = np.asarray(di[f][:])[idx]
-                b = np.asarray(do[f][:])
-                ok = view_eq(a.astype(np.float64), b.astype(np.float64))
             org = "innate" if f in innate else "computed"
-            rec.check(ok, f"tdms/values/{kind}/{org}/{tag}",
-                      f"feature {f} of the converted file differs from the tdms source")
+            bad = []
+            if f == "index":
+                # by design a plain enumeration of the events of *this* file
+                ok = np.array_equal(np.asarray(do["index"][:]),
+                                    np.arange(1, len(idx) + 1))
+                rec.check(ok, f"tdms/values/index/{tag}",
+                          "index of the converted file is not 1..N")
+                continue
+            if f == "contour":
+                bad = [i for j, i in enumerate(idx) if not np.array_equal(
+                    np.asarray(di["contour"][int(i)]), np.asarray(do["contour"][j]))]
+            elif f == "trace":
+                same = sorted(di["trace"].keys()) == sorted(do["trace"].keys())
+                rec.check(same, f"tdms/trace-names/{tag}", "trace names differ")
+                for k in di["trace"].keys():
+                    if k in do["trace"]:
+                        a = np.asarray(di["trace"][k])[idx]
+                        b = np.asarray(do["trace"][k][:])
+                        bad += list(idx[np.any(a != b, axis=1)]) \
+                            if a.shape == b.shape else list(idx)
+            elif f == "image":
+                for j, i in enumerate(idx):
+                    if int(i) not in src_img:
+                        rec.skip("tdms-image-beyond-cached-frames")
+                        continue
+                    if not np.array_equal(src_img[int(i)], np.asarray(do[f][j])):
+                        bad.append(i)
+                kind = "image"
+            elif kind in ("image", "mask"):
+                bad = [i for j, i in enumerate(idx) if not np.array_equal(
+                    np.asarray(di[f][int(i)]), np.asarray(do[f][j]))]
+            else:
+                a = np.asarray(di[f][:])[idx].astype(np.float64)
+                b = np.asarray(do[f][:]).astype(np.float64)
+                if f in UINT32_FEATS:
+                    # documented unsigned storage of the writer: negative
+                    # source values are outside the comparison (counted)
+                    neg = a < 0
+                    if neg.any():
+                        rec.skip("tdms-negative-value-in-unsigned-feature",
+                                 int(neg.sum()))
+                    a, b = np.where(neg, 0, a), np.where(neg, 0, b)
+                diff = ~((a == b) | (np.isnan(a) & np.isnan(b)))
+                bad = list(idx[diff])
+                if f.startswith("bright_") and org == "computed":
+                    kind = "image-derived"
+            rec.check(not bad, f"tdms/values/{kind}/{org}/{cls}",
+                      lambda: f"feature {f} of the converted file differs from the "
+                              f"tdms source at source events {[int(i) for i in bad][:6]} "
+                              f"(video holds {nimg} frames, source {n} events)")
         for lk in di.logs:
             rec.check(lk in do.logs and list(do.logs[lk]) == list(di.logs[lk]),
                       "tdms/logs", f"log {lk} of the tdms source not preserved")
